@@ -7,8 +7,11 @@ import (
 	"encoding/json"
 	"fmt"
 	"math"
+	"math/rand"
+	"reflect"
 	"sort"
 	"strconv"
+	"strings"
 
 	"github.com/osteele/liquid"
 	"github.com/osteele/liquid/values"
@@ -258,6 +261,19 @@ func realiseBase(v J, r *Repr, path, h string) (any, error) {
 				t[i] = n
 			}
 			return t, nil
+		case "int16s", "int32s", "uints", "uint16s", "uint32s", "uint64s", "float32s":
+			// typed slices of the remaining widths (never []uint8, which is []byte: text, not an array)
+			elem := map[string]reflect.Type{"int16s": reflect.TypeOf(int16(0)), "int32s": reflect.TypeOf(int32(0)), "uints": reflect.TypeOf(uint(0)),
+				"uint16s": reflect.TypeOf(uint16(0)), "uint32s": reflect.TypeOf(uint32(0)), "uint64s": reflect.TypeOf(uint64(0)), "float32s": reflect.TypeOf(float32(0))}[h]
+			t := reflect.MakeSlice(reflect.SliceOf(elem), len(out), len(out)+2)
+			for i, e := range out {
+				n, ok := e.(int)
+				if !ok || (n < 0 && h[0] == 'u') || n > 32767 || n < -32768 {
+					return nil, fmt.Errorf("repr %s: element %d is %v", h, i, e)
+				}
+				t.Index(i).Set(reflect.ValueOf(n).Convert(elem))
+			}
+			return t.Interface(), nil
 		case "int64s", "int8s", "float64s":
 			i64, i8, f64 := make([]int64, len(out)), make([]int8, len(out)), make([]float64, len(out))
 			for i, e := range out {
@@ -402,6 +418,120 @@ func realiseBase(v J, r *Repr, path, h string) (any, error) {
 		return values.NewRange(jint(v, "a"), jint(v, "b")), nil
 	}
 	return nil, fmt.Errorf("unknown value kind %q", jstr(v, "k"))
+}
+
+// autoRepr draws a representation for every node of a binding environment, within what C18 names: Drops anywhere,
+// pointers where a variable or a property lookup reaches them, numeric widths that hold the value exactly, typed
+// slices and fixed arrays for homogeneous arrays, string-keyed typed maps for homogeneous maps.
+func autoRepr(pairs []any, r *rand.Rand) J {
+	hints := J{}
+	// (the statement names printing, comparison and arithmetic for the numeric widths - not loop modifiers and range
+	// endpoints, for which the generators use the variables i0..i3: those keep their width)
+	loopInts := map[string]bool{"i0": true, "i1": true, "i2": true, "i3": true}
+	var walk func(v J, path string, viaLookup bool)
+	walk = func(v J, path string, viaLookup bool) {
+		var choices []string
+		switch jstr(v, "k") {
+		case "int":
+			if loopInts[path] {
+				break
+			}
+			n := jint(v, "v")
+			choices = []string{"int64", "int32", "int16"}
+			if n >= 0 {
+				choices = append(choices, "uint", "uint16", "uint32", "uint64")
+			}
+			if n >= -128 && n <= 127 {
+				choices = append(choices, "int8")
+			}
+			if n >= 0 && n <= 255 {
+				choices = append(choices, "uint8")
+			}
+			if n > 32767 || n < -32768 {
+				choices = []string{"int64"}
+			}
+		case "flt":
+			f := float64(jint(v, "n")) / float64(jint(v, "d"))
+			if float64(float32(f)) == f {
+				choices = []string{"float32"}
+			}
+		case "arr":
+			items := jarr(v, "v")
+			allInt, allStr, nonneg := len(items) > 0, len(items) > 0, true
+			for _, it := range items {
+				e := jobj(it)
+				if jstr(e, "k") != "int" || jint(e, "v") > 32767 || jint(e, "v") < -32768 {
+					allInt = false
+				} else if jint(e, "v") < 0 {
+					nonneg = false
+				}
+				if jstr(e, "k") != "str" {
+					allStr = false
+				}
+			}
+			switch {
+			case allInt && r.Intn(2) == 0:
+				c := []string{"ints", "int64s", "int32s", "int16s", "float64s"}
+				if nonneg {
+					c = append(c, "uints", "uint16s", "uint32s", "uint64s")
+				}
+				hints[path] = pick(r, c)
+				return
+			case allStr && r.Intn(2) == 0:
+				hints[path] = "strings"
+				return
+			}
+			for i, it := range items {
+				walk(jobj(it), path+"/"+strconv.Itoa(i), false)
+			}
+			switch len(items) {
+			case 2:
+				choices = []string{"array2"}
+			case 3:
+				choices = []string{"array3"}
+			}
+		case "map":
+			ps := jarr(v, "v")
+			allInt, allStr := len(ps) > 0, len(ps) > 0
+			for _, p := range ps {
+				e := jobj(p.([]any)[1])
+				if jstr(e, "k") != "int" {
+					allInt = false
+				}
+				if jstr(e, "k") != "str" {
+					allStr = false
+				}
+			}
+			switch {
+			case allInt && r.Intn(2) == 0:
+				hints[path] = "mapint"
+				return
+			case allStr && r.Intn(2) == 0:
+				hints[path] = "mapstr"
+				return
+			}
+			for _, p := range ps {
+				pa := p.([]any)
+				// (a pointer is what it points to where a variable or a property lookup reaches it; inside a map that is
+				// itself an element, whole-map operations - uniq, == - would meet the pointer without a lookup)
+				walk(jobj(pa[1]), path+"/"+bytesOf(pa[0]), !strings.Contains(path, "/"))
+			}
+		}
+		choices = append(choices, "drop")
+		if viaLookup {
+			choices = append(choices, "ptr")
+		}
+		if r.Intn(2) == 0 {
+			hints[path] = pick(r, choices)
+		}
+	}
+	for _, p := range pairs {
+		pa, _ := p.([]any)
+		if len(pa) == 2 {
+			walk(jobj(pa[1]), bytesOf(pa[0]), true)
+		}
+	}
+	return hints
 }
 
 // realiseEnv builds the binding map from [[name, value], ...].
